@@ -8,7 +8,7 @@ Local Open Scope Z_scope.
 Definition writes (o : op) : list nat :=
   match o with
   | Done h | Init h | Del h | Append h _ | TokEval h | UrlUnparse h | ReSetFlags h _ | ReCompile h
-  | LRemove h _ | LRemoveAt h _ | LReverse h | VRemove h _ | MSet h _ _ | MRemove h _ => [h]
+  | LRemove h _ | LRemoveAt h _ | LReverse h | VRemove h _ | MSet h _ _ | MSetPair h _ | MSetOwn h _ _ | MRemove h _ => [h]
   | SetKey p h | SetValue p h | TokSetSrc p h | TokSetSep p h | UrlSet p _ h =>
       p :: match h with Some x => [x] | None => [] end
   | LAppend c h | LPrepend c h | LInsert c h | LInsertAt c h _ | VInsert c h => [c; h]
@@ -107,6 +107,26 @@ Qed.
 
 (* an operation that does not write h (and is not "delete everything") keeps h *)
 Ltac nw := let X := fresh in intro X; subst; cbn in *; tauto.
+Lemma map_set_keeps h w m ko vo w' r :
+  map_set pcre w m ko vo = Ok (w', r) -> h <> m -> keeps h w w'.
+Proof.
+  unfold map_set. intros E Nm.
+    destruct (get w m) as [mo|]; cbn [bind] in E; [|discriminate].
+    destruct (as_cont mo) as [[[[[i c] a] al] xs]|]; cbn [bind] in E; [|discriminate].
+    destruct (want_iface i IMap); cbn [bind] in E; [|discriminate].
+    match type of E with (if ?c then _ else _) = _ => destruct c end; [discriminate|].
+    destruct (map_scan ko xs O) as [hit|]; cbn [bind] in E; [|discriminate].
+    destruct (copy pcre vo) as [v'|]; cbn [bind] in E; [|discriminate].
+    destruct hit as [n|].
+    + destruct (nth n xs None) as [[]|]; try discriminate.
+      destruct (relabel v' (naddr w)) as [v2 na]. inv E.
+      intros o L. cbn [held]. rewrite lookup_put_ne by congruence. exact L.
+    + destruct (copy pcre ko) as [k'|]; cbn [bind] in E; [|discriminate].
+      destruct (relabel (OPair (Some k') (Some v')) (naddr w)) as [pr na].
+      destruct (c_insert c pr xs) as [xs'|]; cbn [bind] in E; [|discriminate]. inv E.
+      intros o L. cbn [held]. rewrite lookup_put_ne by congruence. exact L.
+Qed.
+
 Theorem step_keeps h w op w' r :
   step pcre flag_table w op = Ok (w', r) -> ~ In h (writes op) -> is_delall op = false -> keeps h w w'.
 Proof.
@@ -195,19 +215,24 @@ Proof.
     destruct (get w m) as [mo|]; cbn [bind] in E; [|discriminate].
     destruct (get w k) as [ko|]; cbn [bind] in E; [|discriminate].
     destruct (get w v) as [vo|]; cbn [bind] in E; [|discriminate].
+    match type of E with (if ?c then _ else _) = _ => destruct c end; [discriminate|].
+    eapply map_set_keeps; [exact E|nw].
+  - (* MSetPair *)
+    destruct (get w m) as [mo|]; cbn [bind] in E; [|discriminate].
+    destruct (get w p) as [po|]; cbn [bind] in E; [|discriminate].
+    match type of E with (if ?c then _ else _) = _ => destruct c end; [discriminate|].
+    destruct po as [| | | |[pk|] [pv|]| | | | | |]; try discriminate.
+    eapply map_set_keeps; [exact E|nw].
+  - (* MSetOwn *)
+    destruct (get w m) as [mo|]; cbn [bind] in E; [|discriminate].
+    destruct (get w k) as [ko|]; cbn [bind] in E; [|discriminate].
     destruct (as_cont mo) as [[[[[i c] a] al] xs]|]; cbn [bind] in E; [|discriminate].
     destruct (want_iface i IMap); cbn [bind] in E; [|discriminate].
     match type of E with (if ?c then _ else _) = _ => destruct c end; [discriminate|].
-    match type of E with (x <- ?S ;; _) = _ => destruct S as [hit|] end; cbn [bind] in E; [|discriminate].
-    destruct (copy pcre vo) as [v'|]; cbn [bind] in E; [|discriminate].
-    destruct hit as [n|].
-    + destruct (nth n xs None) as [[]|]; try discriminate.
-      destruct (relabel v' (naddr w)) as [v2 na]. inv E.
-      intros o L. cbn [held]. rewrite lookup_put_ne by nw. exact L.
-    + destruct (copy pcre ko) as [k'|]; cbn [bind] in E; [|discriminate].
-      destruct (relabel (OPair (Some k') (Some v')) (naddr w)) as [pr na].
-      destruct (c_insert c pr xs) as [xs'|]; cbn [bind] in E; [|discriminate]. inv E.
-      intros o L. cbn [held]. rewrite lookup_put_ne by nw. exact L.
+    destruct (map_scan ko xs O) as [[n|]|]; cbn [bind] in E; [| |discriminate].
+    + destruct (nth n xs None) as [[| | | |[pk|] [pv|]| | | | | |]|]; try discriminate.
+      eapply map_set_keeps; [exact E|nw].
+    + inv E. apply keeps_refl.
   - destruct (get w k); cbn [bind] in E; [|discriminate]. eapply take_keeps; [exact E|nw].
   - eapply project_keeps; [exact E|]. intros d ->. nw.
   - eapply project_keeps; [exact E|]. intros d ->. nw.
@@ -221,6 +246,12 @@ Proof.
     destruct (as_cont co) as [[[[[i k] a] al] xs]|]; cbn [bind] in E; [|discriminate].
     match type of E with Ok ?hb = _ => destruct hb as [w1 r1] eqn:H end. inv E.
     eapply hand_back_keeps; eauto.
+  - (* Query *)
+    destruct (get w c) as [co|]; cbn [bind] in E; [|discriminate].
+    destruct (get w h0) as [po|]; cbn [bind] in E; [|discriminate].
+    destruct (as_cont co) as [[[[[i k] a] al] xs]|]; cbn [bind] in E; [|discriminate].
+    match type of E with (if ?c then _ else _) = _ => destruct c end; [discriminate|].
+    destruct (query_walk i po xs); inv E. apply keeps_refl.
 Qed.
 
 (* a whole history that never writes h *)
